@@ -639,7 +639,31 @@ class Body:
                 if d[0] == 'stmt' and d[3]['rv']['k'] == 'discr' and d[3]['rv']['place']['l'] == local \
                         and all(e == 'deref' for e in d[3]['rv']['place']['p']):
                     out.append(bb)
+                elif d[0] == 'stmt' and d[3]['rv']['k'] == 'discr' and d[3]['rv']['place']['l'] != local and self._wrapped_in(d[3]['rv']['place'], local):
+                    out.append(bb)      # the value was wrapped (`Some(x)`) and is matched through the wrapper: `Some(Ok(..))`
         return out
+
+    def _wrapped_in(self, place, local):
+        """`place` is (W as Variant).k where W is a local built once as Variant(.., move/copy _local, ..) with _local at index k"""
+        p = place['p']
+        if len(p) != 2 or not isinstance(p[0], dict) or 'downcast' not in p[0] or not isinstance(p[1], dict) or 'f' not in p[1]:
+            return False
+        ds = [d for d in self.defs_of(place['l']) if d[0] == 'stmt']
+        if len(ds) != 1 or ds[0][3]['rv']['k'] != 'aggregate' or ds[0][3]['rv'].get('variant') != p[0]['downcast']:
+            return False
+        ops = ds[0][3]['rv'].get('ops') or []
+        k = p[1]['f']
+        if k >= len(ops):
+            return False
+        l = op_bare_local(ops[k])
+        for _ in range(6):      # (through whole-value moves: the return slot of a closure written in place ..)
+            if l is None or l == local:
+                break
+            dd = [d for d in self.defs_of(l) if d[0] in ('stmt', 'call')]
+            if len(dd) != 1 or dd[0][0] != 'stmt' or dd[0][3]['rv']['k'] != 'use':
+                break
+            l = op_bare_local(dd[0][3]['rv']['op'])
+        return l == local
 
     def primary_switch(self, local):
         """the switch on discriminant(_local) that dominates every other one
